@@ -165,3 +165,153 @@ Example C12_example_dispatch :
   dispatch "lca" true = Decided RunWithWarning /\ dispatch "lca" false = Decided Run /\
   dispatch "spfs" true = Rejected.
 Proof. repeat split. Qed.
+
+(** * The whole command on binary inputs (Model/CliRun.v, Proofs/CliRunProofs.v)
+
+    [cli_run] mirrors read_input -> label_internal -> call_algorithm -> the solver -> dump_results; what is
+    printed as "Minimum cost" is the evaluated cost of the first result.  Every written object parses back (C11
+    reader) to a solution whose evaluated cost is the printed minimum (any costs, any policy); inside the
+    coherent region the object written under --solutions any is one of those written under --solutions all,
+    with the same printed minimum; the written trees carry the names label_internal gives; a
+    super-reconciliation algorithm without syntenies writes nothing.  Statements as Coq prints them. *)
+
+From SR Require Import Model.CliRun Proofs.CliRunProofs.
+
+Theorem C12_cli_objects_parse_back :
+  forall (x : cli_input) (inp : Serial.any_input) (warned : bool) 
+         (m : Ext.ext) (objs : list out_obj),
+       read_input x = Some inp ->
+       cli_input_wf inp ->
+       ThlProofs.nn (Recon.c_hgt (ci_costs x)) ->
+       cli_run x = CliOk warned m objs ->
+       forall d : out_obj,
+       In d objs ->
+       exists r : Serial.routput + Serial.soutput,
+         parse_back d = Some r /\
+         result_input r = Serial.Plain (Serial.base_of inp) /\
+         eval_result (fam_num (input_table inp)) r = Some m.
+Proof. exact @cli_objects_parse_back. Qed.
+Print Assumptions C12_cli_objects_parse_back.
+
+Theorem C12_cli_objects_parse_back_own :
+  forall (x : cli_input) (inp : Serial.any_input) (warned : bool) 
+         (m : Ext.ext) (objs : list out_obj),
+       read_input x = Some inp ->
+       cli_input_wf inp ->
+       ThlProofs.nn (Recon.c_hgt (ci_costs x)) ->
+       cli_run x = CliOk warned m objs ->
+       forall d : out_obj,
+       In d objs ->
+       exists r : Serial.routput + Serial.soutput,
+         parse_back d = Some r /\
+         result_input r = Serial.Plain (Serial.base_of inp) /\ eval_result (own_num r) r = Some m.
+Proof. exact @cli_objects_parse_back_own. Qed.
+Print Assumptions C12_cli_objects_parse_back_own.
+
+Theorem C12_cli_objects_parse_back_wf :
+  forall (x : cli_input) (warned : bool) (m : Ext.ext) (objs : list out_obj),
+       cli_wf x ->
+       ThlProofs.nn (Recon.c_hgt (ci_costs x)) ->
+       cli_run x = CliOk warned m objs ->
+       exists inp : Serial.any_input,
+         read_input x = Some inp /\
+         (forall d : out_obj,
+          In d objs ->
+          exists r : Serial.routput + Serial.soutput,
+            parse_back d = Some r /\
+            result_input r = Serial.Plain (Serial.base_of inp) /\
+            eval_result (own_num r) r = Some m).
+Proof. exact @cli_objects_parse_back_wf. Qed.
+Print Assumptions C12_cli_objects_parse_back_wf.
+
+Theorem C12_cli_all_superset_any :
+  forall (x : cli_input) (inp : Serial.any_input) (wa : bool) (ma : Ext.ext)
+         (oa : list out_obj) (wl : bool) (ml : Ext.ext) (ol : list out_obj),
+       read_input x = Some inp ->
+       cli_input_wf inp ->
+       ThlProofs.nn (Recon.c_hgt (ci_costs x)) ->
+       cli_region (ci_algo x) (ci_costs x) ->
+       cli_run (set_policy x Entry.RANY) = CliOk wa ma oa ->
+       cli_run (set_policy x Entry.RALL) = CliOk wl ml ol -> incl oa ol /\ ma = ml.
+Proof. exact @cli_all_superset_any. Qed.
+Print Assumptions C12_cli_all_superset_any.
+
+Theorem C12_cli_all_superset_any_wf :
+  forall (x : cli_input) (wa : bool) (ma : Ext.ext) (oa : list out_obj) 
+         (wl : bool) (ml : Ext.ext) (ol : list out_obj),
+       cli_wf x ->
+       ThlProofs.nn (Recon.c_hgt (ci_costs x)) ->
+       cli_region (ci_algo x) (ci_costs x) ->
+       cli_run (set_policy x Entry.RANY) = CliOk wa ma oa ->
+       cli_run (set_policy x Entry.RALL) = CliOk wl ml ol -> incl oa ol /\ ma = ml.
+Proof. exact @cli_all_superset_any_wf. Qed.
+Print Assumptions C12_cli_all_superset_any_wf.
+
+Theorem C12_cli_region_of_coherent :
+  forall (key : string) (c : Recon.costs),
+       BinInt.Z.le BinNums.Z0 (Recon.c_floss c) ->
+       BinInt.Z.le BinNums.Z0 (Recon.c_sloss c) ->
+       BinInt.Z.le
+         (BinInt.Z.add (Recon.c_spe c)
+            (BinInt.Z.mul (BinNums.Zpos (BinNums.xO BinNums.xH)) (Recon.c_sloss c)))
+         (BinInt.Z.add (Recon.c_dup c)
+            (BinInt.Z.mul (BinNums.Zpos (BinNums.xO BinNums.xH)) (Recon.c_floss c))) ->
+       cli_region key c.
+Proof. exact @cli_region_of_coherent. Qed.
+Print Assumptions C12_cli_region_of_coherent.
+
+Theorem C12_cli_names :
+  forall (x : cli_input) (warned : bool) (m : Ext.ext) (objs : list out_obj),
+       cli_run x = CliOk warned m objs ->
+       exists O' S' : ntree string,
+         labelled "O" (ci_otree x) O' /\
+         labelled "S" (ci_stree x) S' /\
+         (forall d : out_obj,
+          In d objs ->
+          Serial.d_otree (obj_base d) = Newick.print_tree (tree_of O') /\
+          Serial.d_stree (obj_base d) = Newick.print_tree (tree_of S')).
+Proof. exact @cli_names. Qed.
+Print Assumptions C12_cli_names.
+
+Theorem C12_written_tree_names :
+  forall t : ntree string,
+       Forall good_name (preorder t) ->
+       exists u : Newick.tree,
+         Newick.parse_tree (Newick.print_tree (tree_of t)) = Some u /\ Serial.names u = preorder t.
+Proof. exact @written_tree_names. Qed.
+Print Assumptions C12_written_tree_names.
+
+Theorem C12_cli_super_without_syntenies :
+  forall x : cli_input,
+       is_super (ci_algo x) = true ->
+       ci_leafsyn x = None ->
+       cli_run x = match read_input x with
+                   | Some _ => CliError
+                   | None => CliRaise
+                   end.
+Proof. exact @cli_super_without_syntenies. Qed.
+Print Assumptions C12_cli_super_without_syntenies.
+
+Theorem C12_cli_super_without_syntenies_writes_nothing :
+  forall (x : cli_input) (warned : bool) (m : Ext.ext) (objs : list out_obj),
+       is_super (ci_algo x) = true -> ci_leafsyn x = None -> cli_run x <> CliOk warned m objs.
+Proof. exact @cli_super_without_syntenies_writes_nothing. Qed.
+Print Assumptions C12_cli_super_without_syntenies_writes_nothing.
+
+Theorem C12_read_input_wf :
+  forall (x : cli_input) (inp : Serial.any_input),
+       cli_wf x -> read_input x = Some inp -> cli_input_wf inp.
+Proof. exact @read_input_wf. Qed.
+Print Assumptions C12_read_input_wf.
+
+Theorem C12_eval_numbering_irrelevant :
+  forall num1 num2 : string -> option Recon.fam,
+       num_inj num1 ->
+       num_inj num2 ->
+       forall (x : Serial.soutput) (v : Ext.ext),
+       (forall s : string, In s (syn_strings (Serial.syns x)) -> num2 s <> None) ->
+       eval_soutput num1 x = Some v -> eval_soutput num2 x = Some v.
+Proof. exact @eval_numbering_irrelevant. Qed.
+Print Assumptions C12_eval_numbering_irrelevant.
+
+Example C12_cli_example := cli_example.
